@@ -56,6 +56,10 @@ def run(ctx, pool):
         "events": hist, "clauses": CLAUSES,
         "samples": [tw.traces[0][:3], tw.traces[-1][:3]],
     }
+    res["coverage"]["records_dropped_on_library_exception"] = {"count": stats.get("skipped", 0), "by_exception": stats.get("skipped_excs", {})}
+    if stats.get("skipped", 0) > 0.2 * 2 * ctx.n(700, 40000):
+        res.setdefault("failures", []).append("the library raised on %d of the sampled (mixture, model) records: %s" % (
+            stats["skipped"], stats.get("skipped_excs")))
     res["required_events"] = {k: hist.get(k, 0) for k in ("Mix", "GD", "Pure", "PP")}
     res["trace_lookup"] = lambda v: [tw.traces[v["record"]["t"]][0], v["record"]]
     return res
